@@ -257,7 +257,7 @@ Definition rdf_resolve (base ref : str) : option str :=
   match c_scheme (s_split ref) with Some _ => Some ref | None => rfc_resolve base ref end.
 
 (* well-formedness of the base as the theorem needs it: it has a scheme (RFC 3986 5.2.1: "a base URI must be an
-   absolute URI"), and its fragment contains no '#' (RFC 3986 3.5).  [hier_or_same]: join refuses (ValueError,
+   absolute URI"), and its fragment contains no '#' (RFC 3986 3.5: with two '#' the base is not a legal IRI at all).  [hier_or_same]: join refuses (ValueError,
    an intended behaviour with its own doctest) a base that is not hierarchical unless the reference is a
    same-document reference. *)
 Definition count_hash (l : str) : nat := length (filter (fun c => c =? HASH) l).
@@ -295,13 +295,11 @@ Definition j_model (c : jcase) : jobs :=
   let r := m_join (j_base c) (j_ref c) in
   (r, Some (match r with JOk s => Some s | _ => None end)).
 
-(* finding trigger 17 (C05q): the base has more than one '#' and the reference is a same-document reference:
-   join cuts the base at its LAST '#' (splitFragP) instead of its first *)
-Definition j_kf (c : jcase) : N :=
-  if Nat.leb 2 (count_hash (j_base c)) && same_document (j_ref c) then 17 else 0.
-
+(* no trigger: a base with more than one '#' is not a legal IRI (RFC 3986 3.5: a fragment cannot contain '#') and is
+   excluded by [base_ok], the well-formedness of the base; there join cuts a same-document reference's base at its
+   LAST '#' (splitFragP) - behaviour on illegal input, kept as a corpus case for documentation only *)
 Definition j_spec_ok (c : jcase) (o : jobs) : bool :=
-  let guard := negb (is_none (c_scheme (s_split (j_base c)))) && (hierarchical (j_base c) || same_document (j_ref c)) in
+  let guard := base_ok (j_base c) && (hierarchical (j_base c) || same_document (j_ref c)) in
   negb guard ||
   match rdf_resolve (j_base c) (j_ref c), fst o with
   | Some t, JOk s => str_eqb s t && (match snd o with Some (Some s') => str_eqb s' t | Some None => false | None => true end)
